@@ -254,6 +254,15 @@ impl<'a> EbpfVmMbuff<'a> {
         let stack_usage = self.stack_verifier.stack_validate(prog)?;
         self.prog = Some(prog);
         self.stack_usage = Some(stack_usage);
+        // Code compiled from the previous program must not be run for the new one.
+        #[cfg(not(windows))]
+        {
+            self.jit = None;
+        }
+        #[cfg(feature = "cranelift")]
+        {
+            self.cranelift_prog = None;
+        }
         Ok(())
     }
 
